@@ -38,6 +38,8 @@ func runC06(c *an.Ctx) {
 	r062(c)
 	r063(c)
 	r064(c)
+	r065(c)
+	c.Min("R06.5", 2)
 	c.Min("R06.1", 5)
 	c.Min("R06.2", 9)
 	c.Min("R06.3", 1)
@@ -233,8 +235,28 @@ func r062(c *an.Ctx) {
 		}
 		c.Check(ok, rule, "(*pkg/resource.ReadRequest).FilterClone|delegates to the request's filter", fn.Pos(), "", "ReadRequest.FilterClone does not return ResponseFilter().FilterClone(m)")
 	}
-	// Value.get
-	if fn := mustFunc(c, rule, resPkg, "Value", "get"); fn != nil {
+	// Value.get (or, when the helper has been folded into it, Value.Get itself)
+	if c.Prog.Func(resPkg, "Value", "get") == nil {
+		if fn := mustFunc(c, rule, resPkg, "Value", "Get"); fn != nil {
+			ok, fromOpts := true, false
+			for _, r := range an.Returns(fn) {
+				if !filterCloneOf(r.Results[0], func(a ssa.Value) bool { return isFieldLoad(a, "value") }) {
+					ok = false
+				}
+				for _, v := range an.ValuesAt(r.Results[0]) {
+					if call, isCall := v.(*ssa.Call); isCall && len(call.Call.Args) > 0 {
+						for _, s0 := range an.Sources(call.Call.Args[0]) {
+							if rc, isRC := s0.(*ssa.Call); isRC && an.CalleeName(rc) == an.ModulePath+"/pkg/resource.ComputeReadConfig" {
+								fromOpts = true
+							}
+						}
+					}
+				}
+			}
+			c.Check(ok, rule, "(*pkg/resource.Value).get|returns FilterClone(stored value)", fn.Pos(), "", "Value.Get does not return the read-mask projection of the stored value")
+			c.Check(fromOpts, rule, "(*pkg/resource.Value).Get|reads with the request built from its options", fn.Pos(), "", "Value.Get does not project with ComputeReadConfig(opts)")
+		}
+	} else if fn := mustFunc(c, rule, resPkg, "Value", "get"); fn != nil {
 		ok := true
 		for _, r := range an.Returns(fn) {
 			if !filterCloneOf(r.Results[0], func(a ssa.Value) bool { return isFieldLoad(a, "value") }) {
@@ -243,7 +265,7 @@ func r062(c *an.Ctx) {
 		}
 		c.Check(ok, rule, "(*pkg/resource.Value).get|returns FilterClone(stored value)", fn.Pos(), "", "Value.Get does not return the read-mask projection of the stored value")
 	}
-	if fn := mustFunc(c, rule, resPkg, "Value", "Get"); fn != nil {
+	if fn := mustFunc(c, rule, resPkg, "Value", "Get"); fn != nil && c.Prog.Func(resPkg, "Value", "get") != nil {
 		ok := false
 		for _, call := range an.CallsTo(fn, "(*"+an.ModulePath+"/pkg/resource.Value).get") {
 			for _, s := range an.Sources(call.Common().Args[1]) {
@@ -568,4 +590,37 @@ func projectionIsIdentity(r *ssa.Return, fields []string) map[string]bool {
 		fact(e.If.Cond, e.Branch, 0)
 	}
 	return out
+}
+
+// r065: field-mask paths are compared by whole segments. Wherever pkg/masks tests one path for being a prefix of
+// another, the prefix ends in the separator (a constant ending in "." or `path + "."`): `state` is not a parent of
+// `state_change_time`, and a read mask naming both selects both.
+func r065(c *an.Ctx) {
+	const rule = "R06.5"
+	n := 0
+	for _, fn := range c.Prog.FuncsIn("pkg/masks") {
+		if c.Prog.IsGenerated(fn.Pos()) {
+			continue
+		}
+		for _, cl := range an.CallsTo(fn, "strings.HasPrefix") {
+			n++
+			pre := cl.Common().Args[1]
+			ok := false
+			if k, isC := pre.(*ssa.Const); isC && k.Value != nil && strings.HasSuffix(strings.Trim(k.Value.ExactString(), "\""), ".") {
+				ok = true
+			}
+			if bo, isBO := pre.(*ssa.BinOp); isBO && bo.Op == token.ADD {
+				if k, isC := bo.Y.(*ssa.Const); isC && k.Value != nil && k.Value.ExactString() == `"."` {
+					ok = true
+				}
+			}
+			top := fn
+			for top.Parent() != nil {
+				top = top.Parent()
+			}
+			c.SawFunc(an.FuncName(top))
+			c.Check(ok, rule, an.FuncName(top)+"|paths are compared by whole segments", cl.Pos(), "the prefix ends in the separator",
+				"one mask path is tested for being a plain string prefix of another: a field whose name merely starts with another field's name (state_change_time next to state) is taken for a sub-path of it, so a read mask naming both loses the longer one (the field is missing from what Get/List/Pull return), or an update path is matched against the wrong writable field")
+		}
+	}
 }
